@@ -235,7 +235,7 @@ func newVerifier(e *Engine, p *packages.Package, fc *FuncContract) *Verifier {
 		counter: map[string]int{}, trusted: map[string]bool{}, unspec: map[string]bool{}, inlined: map[string]bool{}, assumed: map[string]bool{},
 		windows: map[string]*winInfo{}, lits: map[int]litInfo{}, heapSorts: map[string]string{}, scanned: map[ast.Node]bool{},
 		reslicedOnly: map[*types.Var]bool{}, globalsWritten: map[string]bool{}, pendingHavoc: map[string]bool{}, specUsed: map[string]bool{},
-		lemmasUsed: map[string]bool{}, normDone: map[string]bool{}, pathCap: 2000, refRank: map[string]int{}, allocRank: map[string]int{}, axiomSet: map[*Term]bool{}, heapAxDone: map[string]bool{}, sliceRoot: map[*types.Var]*types.Var{}, heapAxOf: map[string]*Term{}}
+		lemmasUsed: map[string]bool{}, normDone: map[string]bool{}, pathCap: 2000, refRank: map[string]int{}, allocRank: map[string]int{}, axiomSet: map[*Term]bool{}, heapAxDone: map[string]bool{}, sliceRoot: map[*types.Var]*types.Var{}, heapAxOf: map[string]*Term{}, heapAxSet: map[*Term]bool{}}
 	if fc != nil && fc.Mode != "" {
 		v.mode = fc.Mode
 	}
